@@ -1,12 +1,5 @@
-import Csproto.Props.C10
 import Csproto.Props.C10Prov
-/- axiom audit for C10 -/
-#print axioms Csproto.C10.safe_mode_owns_everything
-#print axioms Csproto.C10.clobber_invariant
-#print axioms Csproto.C10.safe_reads_decoded
-#print axioms Csproto.C10.fast_mode_aliases
-#print axioms Csproto.C10.facts
--- C10Prov
+/- axiom audit for C10 (provenance model) -/
 #print axioms Csproto.C10Prov.template_policy_safe
 #print axioms Csproto.C10Prov.policy_from_facts
 #print axioms Csproto.C10Prov.erasure
